@@ -115,55 +115,73 @@ def showBlockMeter : Meter → String
   | .infinite c => s!"{c}/inf"
   | m => s!"{m.gasConsumed}/{m.limit}"
 
-def showState (a : App) : String :=
+/-- protocol state: the app plus the check / committed / side-cache dumps as last
+printed (they are printed as `~` while unchanged, to keep lines short) -/
+structure PState where
+  app : Option App := none
+  lastC : String := ""
+  lastK : String := ""
+  lastV : String := ""
+
+def delta (last cur : String) : String := if last == cur then "~" else cur
+
+def showState (p : PState) (a : App) : PState × String :=
   let d := match a.deliver with
     | some b => if b.begun then s!"D={dumpStore b.store} blk={showBlockMeter b.block} cm={b.ctxMeter.gasConsumed}" else "D=- blk=- cm=-"
     | none => "D=- blk=- cm=-"
-  s!"{d} C={dumpStore a.check} K={dumpStore a.committed} V={dumpStore a.vm}"
+  let c := dumpStore a.check
+  let k := dumpStore a.committed
+  let v := dumpStore a.vm
+  ({ p with app := some a, lastC := c, lastK := k, lastV := v },
+   s!"{d} C={delta p.lastC c} K={delta p.lastK k} V={delta p.lastV v}")
 
 def showOut (o : TxOut) : String :=
   if o.crash then "res=crash" else
   s!"res={showRes o.res} gw={o.gasWanted} gu={o.gasUsed} ran=a{if o.anteRan then 1 else 0}m{o.msgsRan} hook={showHook o.hook}"
 
-/-- one protocol line on the app state (`none` = no app yet) -/
-def step (s : Option App) (t : List String) : Option App × String :=
+def withState (p : PState) (a : App) (pre : String) : PState × String :=
+  let r := showState p a
+  (r.1, pre ++ " " ++ r.2)
+
+/-- one protocol line -/
+def step (p : PState) (t : List String) : PState × String :=
   match t with
   | ["init", g] =>
     match parseI64 g with
-    | some mg => (some (App.init mg), "ok")
-    | none => (s, "err:badop")
+    | some mg => ({ app := some (App.init mg) }, "ok")
+    | none => (p, "err:badop")
   | op :: rest =>
-    if op != "begin" && op != "end" && op != "tx" && op != "check" && op != "sim" then (s, "err:badop") else
-    match s with
-    | none => (s, "err:noapp")
+    if op != "begin" && op != "end" && op != "tx" && op != "check" && op != "sim" then (p, "err:badop") else
+    match p.app with
+    | none => (p, "err:noapp")
     | some a =>
-      if a.broken then (s, "err:broken") else
+      if a.broken then (p, "err:broken") else
       match op, rest with
       | "begin", [] =>
         match a.begin with
-        | (a', .ok) => (some a', "ok " ++ showState a')
-        | (_, .inBlock) => (s, "err:inblock")
-        | (a', .badMaxGas) => (some a', "panic:badmaxgas")
+        | (a', .ok) => withState p a' "ok"
+        | (_, .inBlock) => (p, "err:inblock")
+        | (a', .badMaxGas) => ({ p with app := some a' }, "panic:badmaxgas")
       | "end", [] =>
         match a.commit with
-        | some a' => (some a', "ok " ++ showState a')
-        | none => (s, "err:noblock")
+        | some a' => withState p a' "ok"
+        | none => (p, "err:noblock")
       | "tx", args =>
         match parseTx args with
-        | none => (s, "err:badop")
+        | none => (p, "err:badop")
         | some tx =>
           match a.deliverTx tx with
-          | some (a', o) => (some a', showOut o ++ " " ++ showState a')
-          | none => (s, "err:noblock")
+          | some (a', o) => withState p a' (showOut o)
+          | none => (p, "err:noblock")
       | "check", args =>
         match parseTx args with
-        | none => (s, "err:badop")
-        | some tx => let r := a.checkTx tx; (some r.1, showOut r.2 ++ " " ++ showState r.1)
+        | none => (p, "err:badop")
+        | some tx => let r := a.checkTx tx; withState p r.1 (showOut r.2)
       | "sim", args =>
         match parseTx args with
-        | none => (s, "err:badop")
-        | some tx => let r := a.simulate tx; (some r.1, showOut r.2 ++ " " ++ showState r.1)
-      | _, _ => (s, "err:badop")
-  | _ => (s, "err:badop")
+        | none => (p, "err:badop")
+        | some tx => let r := a.simulate tx; withState p r.1 (showOut r.2)
+      | _, _ => (p, "err:badop")
+  | _ => (p, "err:badop")
 
 end GnoVerif.C02.Proto
